@@ -73,6 +73,7 @@ type c20req struct {
 	t0, t1 int64
 	fam    string
 	calls  []uint8
+	asrt   uint8 // the request carries a client assertion: 1 private_key_jwt, 2 client_secret_jwt (suite_c20cfg.go)
 }
 
 // c20glog is owned by ONE goroutine; requests are served synchronously on the caller's goroutine, so the
@@ -177,7 +178,7 @@ func c20Decorate(p *provider.Provider) {
 
 type c20client struct {
 	id, secret, regTok string
-	auth               string // post | pkjwt | none
+	auth               string // post | pkjwt | sjwt | none
 	mode               string // CIBA delivery mode: "" (no CIBA) | poll | ping | push
 	uris               []string
 	static             bool
@@ -380,9 +381,11 @@ func newC20World(name string, rot bool) (*c20W, error) {
 		opts = append(opts, provider.WithRefreshTokenRotation(), provider.WithPrivateKeyJWTSignatureAlgs(goidc.ES256),
 			provider.WithTokenAuthnMethods(goidc.ClientAuthnSecretPost, goidc.ClientAuthnPrivateKeyJWT, goidc.ClientAuthnNone))
 	} else {
-		// (WithSecretJWTSignatureAlgs refuses every algorithm - it ranges over the characters of its first argument -
-		// so ClientAuthnSigAlgs' append(PrivateKeyJWTSigAlgs, ClientSecretJWTSigAlgs...) never has anything to write
-		// into the spare capacity the three algorithms leave)
+		// (client_secret_jwt is not among the methods of this provider, so ClientSecretJWTSigAlgs is empty and
+		// ClientAuthnSigAlgs' append(PrivateKeyJWTSigAlgs, ClientSecretJWTSigAlgs...) has nothing to write.  With the
+		// method enabled the list defaults to HS256 - WithSecretJWTSignatureAlgs itself refuses every algorithm, it
+		// ranges over the characters of its first argument - and the append WRITES whenever PrivateKeyJWTSigAlgs has
+		// spare capacity: the wide-configuration provider of suite_c20cfg.go)
 		opts = append(opts, provider.WithPrivateKeyJWTSignatureAlgs(goidc.ES256, goidc.PS256, goidc.RS256),
 			provider.WithTokenAuthnMethods(goidc.ClientAuthnSecretPost, goidc.ClientAuthnPrivateKeyJWT, goidc.ClientAuthnNone))
 	}
@@ -430,6 +433,7 @@ type c20G struct {
 	own      []c20client // registered by this goroutine, used by it alone
 	deadline time.Time
 	base     time.Time
+	asrtNext uint8 // set by authn, consumed by the next call: the kind of client assertion the request carries
 }
 
 func (g *c20G) late() bool { return !g.deadline.IsZero() && time.Now().After(g.deadline) }
@@ -460,6 +464,7 @@ func (g *c20G) call(fam, method, target, body, ct string, hdr map[string]string)
 	}
 	rec := httptest.NewRecorder()
 	rq := g.begin(fam + g.w.suffix)
+	rq.asrt, g.asrtNext = g.asrtNext, 0
 	g.w.h.ServeHTTP(rec, req)
 	g.end(rq)
 	return rec
@@ -503,6 +508,12 @@ func (g *c20G) authn(c c20client, v url.Values) url.Values {
 		v.Set("client_assertion_type", "urn:ietf:params:oauth:client-assertion-type:jwt-bearer")
 		v.Set("client_assertion", c13Sign(g.w.ckey, "ck1", "JWT", map[string]any{"iss": c.id, "sub": c.id, "aud": issuer,
 			"jti": fmt.Sprint(g.r.Int63()), "exp": time.Now().Unix() + 60, "iat": time.Now().Unix()}, nil))
+		g.asrtNext = 1
+	case "sjwt": // client_secret_jwt (suite_c20cfg.go): an HS256 assertion keyed with the client's secret
+		v.Set("client_assertion_type", "urn:ietf:params:oauth:client-assertion-type:jwt-bearer")
+		v.Set("client_assertion", c20SignHS(c.secret, map[string]any{"iss": c.id, "sub": c.id, "aud": issuer,
+			"jti": fmt.Sprint(g.r.Int63()), "exp": time.Now().Unix() + 60, "iat": time.Now().Unix()}))
+		g.asrtNext = 2
 	case "post":
 		v.Set("client_secret", c.secret)
 	}
@@ -1129,6 +1140,12 @@ func c20Work(ctx *RunCtx) {
 		}
 		fapi[p] = w
 	}
+	// the wide-configuration provider (suite_c20cfg.go) runs levels of its own, like the FAPI ones
+	wide, err := newC20WideWorld()
+	if err != nil {
+		panic(err)
+	}
+	fapi["wide"] = wide
 	// (goroutines, share of the time); the provider alternates, both get a 16-goroutine level
 	type level struct {
 		g     int
@@ -1136,11 +1153,12 @@ func c20Work(ctx *RunCtx) {
 		fapi  string
 	}
 	levels := []level{{2, 0.10, ""}, {4, 0.11, ""}, {8, 0.17, ""}, {16, 0.22, ""}, {16, 0.22, ""},
-		{8, 0.045, "fapi2"}, {8, 0.045, "fapi1"}, {16, 0.045, "fapi2"}, {16, 0.045, "fapi1"}}
+		{8, 0.045, "fapi2"}, {8, 0.045, "fapi1"}, {16, 0.045, "fapi2"}, {16, 0.045, "fapi1"}, {8, 0.05, "wide"}, {16, 0.05, "wide"}}
 	if !ctx.Quick() {
 		levels = []level{{2, 0.035, ""}, {4, 0.045, ""}, {8, 0.07, ""}, {16, 0.09, ""}, {16, 0.09, ""}, {4, 0.02, "fapi2"}, {4, 0.02, "fapi1"},
 			{3, 0.035, ""}, {6, 0.05, ""}, {12, 0.09, ""}, {16, 0.09, ""}, {16, 0.09, ""}, {8, 0.025, "fapi2"}, {8, 0.025, "fapi1"},
-			{5, 0.025, ""}, {16, 0.09, ""}, {16, 0.09, ""}, {16, 0.03, "fapi2"}, {16, 0.03, "fapi1"}, {2, 0.01, "fapi2"}, {2, 0.01, "fapi1"}}
+			{5, 0.025, ""}, {16, 0.09, ""}, {16, 0.09, ""}, {16, 0.03, "fapi2"}, {16, 0.03, "fapi1"}, {2, 0.01, "fapi2"}, {2, 0.01, "fapi1"},
+			{4, 0.012, "wide"}, {8, 0.02, "wide"}, {16, 0.025, "wide"}}
 	}
 	total := time.Duration(ctx.N(30, 240)) * time.Second
 	base := time.Now()
@@ -1169,6 +1187,26 @@ func c20Work(ctx *RunCtx) {
 		}
 	}
 	cold(0, coldRounds/2)
+	// the same against BARE providers (no optional function, no WithHTTPClientFunc; real loopback listeners), and the
+	// bursts of assertion-carrying requests against the wide-configuration provider (suite_c20cfg.go)
+	bareRounds, burstRounds := ctx.N(18, 120), ctx.N(6, 40)
+	bare := func(part int64, rounds int) {
+		logs, stats := c20ColdBareStart(ctx.Seed*10+part, rounds, base)
+		collect(logs)
+		for k, v := range stats {
+			coldStats[k] += v
+		}
+	}
+	burst := func(part int64, rounds int) {
+		logs, stats := c20WideBurst(wide, ctx.Seed*10+part, rounds, base)
+		collect(logs)
+		for k, v := range stats {
+			coldStats[k] += v
+		}
+	}
+	c20WideConfigStats(wide, coldStats)
+	bare(0, bareRounds/2)
+	burst(0, burstRounds/2)
 	runLevel := func(li int, w *c20W, n int, d time.Duration) {
 		deadline := time.Now().Add(d)
 		var wg sync.WaitGroup
@@ -1201,6 +1239,8 @@ func c20Work(ctx *RunCtx) {
 		runLevel(li, w, lv.g, time.Duration(float64(total)*lv.share))
 	}
 	cold(1, coldRounds-coldRounds/2)
+	bare(1, bareRounds-bareRounds/2)
+	burst(1, burstRounds-burstRounds/2)
 	coverage := func() map[string]int {
 		d := map[string]int{}
 		for k, v := range outcomes {
@@ -1210,6 +1250,13 @@ func c20Work(ctx *RunCtx) {
 			d[k] = v
 		}
 		c20Coverage(all, d)
+		var wideReqs []*c20req
+		for _, r := range all {
+			if strings.HasSuffix(r.fam, "@wide") {
+				wideReqs = append(wideReqs, r)
+			}
+		}
+		d["wide/assertion-requests-in-flight-together"], d["wide/assertion-requests-of-both-kinds-in-flight-together"] = c20AssertionOverlap(wideReqs)
 		return d
 	}
 	// a slow machine serves fewer requests: rather than report a gap of the workload, go on (16 goroutines, a few
@@ -1237,8 +1284,28 @@ func c20Work(ctx *RunCtx) {
 				}
 			}
 		}
-		if strings.Contains(strings.Join(gaps, " "), "cold-start") {
+		joined := strings.Join(gaps, " ")
+		if strings.Contains(joined, "cold-start:") || strings.Contains(joined, "@cold") {
 			cold(int64(2+extra), 12)
+		}
+		if strings.Contains(joined, "cold-bare:") || strings.Contains(joined, "@bare") {
+			bare(int64(2+extra), 12)
+		}
+		wideGap, otherGap := false, false
+		for _, gp := range gaps {
+			switch {
+			case strings.Contains(gp, "@wide") || strings.HasPrefix(gp, "wide-config:"):
+				wideGap = true
+			case strings.Contains(gp, "@bare") || strings.Contains(gp, "@cold") || strings.HasPrefix(gp, "cold-"):
+			default:
+				otherGap = true
+			}
+		}
+		if wideGap {
+			burst(int64(2+extra), 4)
+			if !otherGap || extra%3 == 1 {
+				w = wide
+			}
 		}
 		runLevel(li, w, 16, total/10)
 	}
